@@ -210,9 +210,12 @@ def check_sums_and_named(build):
     from .curve import items_for
     items = items_for(build); M = g_models(build)
     obs = []
-    def run1(name, body, want_fn):
+    def run1(name, body, want_fn, fallback=None):
         try: recs = run_paths(items, M, body)
         except Exception as e:
+            if fallback is not None:
+                # the code touches coordinates itself (the free-group domain cannot follow it): decided at coordinate level instead
+                obs.extend(fallback()); return
             obs.append(Ob(name, 'inconclusive', f'{type(e).__name__}: {e} :: ' + ' <- '.join(getattr(e, 'mir_stack', [])[:3]), 0, 'mirsym/G')); return
         for r in recs:
             if 'panic' in r: obs.append(Ob(name, 'violated', 'panics: ' + r['panic'], 0, 'mirsym/G', None, {'kind': 'panic'})); continue
@@ -239,18 +242,21 @@ def check_sums_and_named(build):
                 run1(f'ark:{it.impl_at[0]}:{it.impl_at[1]} `{hdr}` over {n} summands', body, lambda n=n: z3.Sum([z3.Int(f'P{i}') for i in range(n)]) if n else z3.IntVal(0))
         if len(sums) != 4: obs.append(Ob('ark: Sum impls found', 'inconclusive', f'{len(sums)} Sum impls found, expected 4', 0, 'mirsym/G'))
         # named methods
-        def one(pattern, want_fn, mkargs):
+        def one(pattern, want_fn, mkargs, fallback=None):
             try: it = find_item(items, pattern)
             except Unsupported as e:
                 obs.append(Ob('ark:' + pattern, 'inconclusive', str(e), 0, 'mirsym/G')); return
-            run1(f'ark:{it.name.split("::<impl")[0]}::{it.name.split("::")[-1]} ({it.impl_header()})', lambda I, h: post(I, it, mkargs(I, h)), want_fn)
+            run1(f'ark:{it.name.split("::<impl")[0]}::{it.name.split("::")[-1]} ({it.impl_header()})', lambda I, h: post(I, it, mkargs(I, h)), want_fn, fallback)
         def post(I, it, args):
             r = I.call_item(it, args)
             if isinstance(r, Ref): r = I.deref(r)
             return r
         def el(I, h, nm='L', ref=True):
             v, _ = mk_value('ark', ('&' if ref else '') + ELEM_TY['ark'], nm, h); return v
-        one(r'^ark_curve::encoding::<impl at [^>]*>::negate$', lambda: -z3.Int('L'), lambda I, h: [el(I, h)])
+        def negate_poly():
+            from . import curve
+            return curve.check_negate_poly()
+        one(r'^ark_curve::encoding::<impl at [^>]*>::negate$', lambda: -z3.Int('L'), lambda I, h: [el(I, h)], negate_poly)
         one(r'^ark_curve::element::<impl at [^>]*>::double_in_place$', lambda: z3.Int('L') + z3.Int('L'), lambda I, h: [el(I, h)])
         one(r'^ark_curve::element::projective::<impl at [^>]*>::zero$', lambda: z3.IntVal(0), lambda I, h: [])
         one(r'^ark_curve::element::projective::<impl at [^>]*>::default$', lambda: z3.IntVal(0), lambda I, h: [])
@@ -561,6 +567,10 @@ def check_constructors():
         try:
             recs = _run_bounded(items, M, body)
         except Exception as e:
+            if isinstance(extra, tuple) and extra[0] == 'batch' and isinstance(e, Unsupported):
+                # the code does not delegate to the inner group (it touches coordinates itself): decided at coordinate level instead
+                from . import curve
+                obs += curve.check_batch_poly(sizes=(extra[1],), fns=(name.split('::')[1].split(' ')[0],)); continue
             obs.append(Ob(nm, 'inconclusive', f'{type(e).__name__}: {e} :: ' + ' <- '.join(getattr(e, 'mir_stack', [])[:3]), 0, 'mirsym/G')); continue
         bad = None; npaths = 0
         for r in recs:
